@@ -735,7 +735,7 @@ func Yield(site int32) {
 	if s == nil {
 		return
 	}
-	if l := liveSites.Load(); l != nil && int(site) < len(*l) && !(*l)[site] {
+	if l := liveSites.Load(); l != nil && site >= 0 && int(site) < len(*l) && !(*l)[site] {
 		return
 	}
 	_, t := current()
